@@ -29,6 +29,9 @@ func TyGo(t *wg.Ty) string {
 	}
 	switch t.K {
 	case wg.KScalar:
+		if t.S == "o" && t.Name != "" {
+			return fmt.Sprintf("rt.ObjTy(%q)", t.Name)
+		}
 		return fmt.Sprintf("wg.Scalar(%q)", t.S)
 	case wg.KList:
 		return "wg.List(" + TyGo(t.Elem) + ")"
@@ -198,8 +201,8 @@ func Scaffold(p *Package, genSrc []byte, importPath string) (implSrc, mainSrc st
 			return "", "", fmt.Errorf("generated interfaces of %s do not have one entry per action (%d %d %d)", it.Name, len(im), len(hm), len(pm))
 		}
 		tn := fmt.Sprintf("Zz05Impl%d", ii)
-		fmt.Fprintf(&impl, "\ntype %s struct{ R Zz05Rec }\n\n", tn)
-		fmt.Fprintf(&impl, "func (z *%s) Activate(a0 %s, a1 %s) error {\n\tz.R.Helper(%q, a1)\n\treturn nil\n}\nfunc (z *%s) OnTerminate() {}\n", tn, im[0].params[0], im[0].params[1], fmt.Sprint(ii), tn)
+		fmt.Fprintf(&impl, "\ntype %s struct {\n\tR    Zz05Rec\n\tInst string // which object of the interface this is (\"\" = the service's main object)\n}\n\n", tn)
+		fmt.Fprintf(&impl, "func (z *%s) Activate(a0 %s, a1 %s) error {\n\tz.R.Helper(%q+z.Inst, a1)\n\treturn nil\n}\nfunc (z *%s) OnTerminate() {}\n", tn, im[0].params[0], im[0].params[1], fmt.Sprint(ii), tn)
 		key := func(a *Action) string {
 			for k, x := range it.Actions {
 				if x == a {
@@ -215,14 +218,14 @@ func Scaffold(p *Package, genSrc []byte, importPath string) (implSrc, mainSrc st
 				as = append(as, fmt.Sprintf(", a%d", i))
 			}
 			if len(m.results) == 2 {
-				fmt.Fprintf(&impl, "func (z *%s) %s(%s) (%s, error) {\n\tz.R.Args(%q%s)\n\tvar r %s\n\tz.R.Ret(%q, &r)\n\treturn r, nil\n}\n",
+				fmt.Fprintf(&impl, "func (z *%s) %s(%s) (%s, error) {\n\tz.R.Args(%q+z.Inst%s)\n\tvar r %s\n\tz.R.Ret(%q+z.Inst, &r)\n\treturn r, nil\n}\n",
 					tn, m.name, strings.Join(ps, ", "), m.results[0], k, strings.Join(as, ""), m.results[0], k)
 			} else {
-				fmt.Fprintf(&impl, "func (z *%s) %s(%s) error {\n\tz.R.Args(%q%s)\n\treturn nil\n}\n", tn, m.name, strings.Join(ps, ", "), k, strings.Join(as, ""))
+				fmt.Fprintf(&impl, "func (z *%s) %s(%s) error {\n\tz.R.Args(%q+z.Inst%s)\n\treturn nil\n}\n", tn, m.name, strings.Join(ps, ", "), k, strings.Join(as, ""))
 			}
 		}
-		fmt.Fprintf(&drv, "\td.Add(rt.Iface{Name: %q, Key: %q, Actor: g.%sObject(&g.%s{R: d}),\n\t\tMake: func(s bus.Session, p bus.Proxy) interface{} { return g.Make%s(s, p) },\n\t\tActions: []rt.Action{\n",
-			it.Name, fmt.Sprint(ii), stubName(it), tn, cleanName(it.Name))
+		fmt.Fprintf(&drv, "\td.Add(rt.Iface{Name: %q, Key: %q, Actor: g.%sObject(&g.%s{R: d}),\n\t\tMake: func(s bus.Session, p bus.Proxy) interface{} { return g.Make%s(s, p) },\n", it.Name, fmt.Sprint(ii), stubName(it), tn, cleanName(it.Name))
+		fmt.Fprintf(&drv, "\t\tCreate: func(s bus.Session, svc bus.Service, inst string) (interface{}, error) {\n\t\t\treturn g.Create%s(s, svc, &g.%s{R: d, Inst: inst})\n\t\t},\n\t\tActions: []rt.Action{\n", stubName(it), tn)
 		tys := func(a *Action) string {
 			it := make([]string, len(a.Params))
 			for i, x := range a.Params {
